@@ -349,4 +349,7 @@ func Run(stimPath, out string) {
 	for _, t := range res {
 		w.Put(t)
 	}
+	for _, c := range RunConns() {
+		w.Put(c)
+	}
 }
